@@ -147,6 +147,52 @@ func init() {
 			s.Fail("wrong-value", fmt.Sprintf("got (%v,%v)", a, b))
 		}
 	})
+	// two callers use the same derived Do at the same time, and one call is nested in an argument
+	// function of another: state shared between calls of one derived function shows only then
+	scenarios = append(scenarios, scenario{name: "do-2-overlapping-calls", prop: "C20", run: func(ts *tape.Set, trace bool) *Outcome {
+		cf := ts.Fork("cfg")
+		p1 := drawDoPlan(cf, ts.Fork("faults"), 2)
+		p2 := drawDoPlan(cf, ts.Fork("faults2"), 2)
+		nested := cf.Intn(3) == 0
+		s := New(simConfig(cf, 2*(30+10*2+4*len(p1.pairs)+4*len(p2.pairs)), trace), ts.Fork("sched"))
+		r1, r2 := newDoRun(p1), newDoRun(p2)
+		o := &Outcome{Decoded: map[string]any{"call1": p1.decoded(), "call2": p2.decoded(), "nested": nested}}
+		call := func(r *doRun, tag int, inner func()) {
+			a, b, err := do2.Do(
+				func() (int, error) {
+					if inner != nil {
+						inner()
+					}
+					e := r.body(0)
+					return 100*tag + 11, e
+				},
+				func() (string, error) { e := r.body(1); return fmt.Sprint("v", tag), e },
+			)
+			r.checkReturn(s, err)
+			if a != 100*tag+11 || b != fmt.Sprint("v", tag) {
+				s.Fail("wrong-value", fmt.Sprintf("call %d got (%v,%v)", tag, a, b))
+			}
+		}
+		f := s.Run(func() {
+			r1.setup()
+			r2.setup()
+			if nested {
+				call(r1, 1, func() { call(r2, 2, nil) })
+				return
+			}
+			done := Named(Make[int](1), "caller2-done")
+			GoHarness("caller2", func() { call(r2, 2, nil); Send(done, 1) })
+			call(r1, 1, nil)
+			Recv(done)
+		})
+		finish(s, f, o)
+		for _, fl := range append(append([]bool{}, p1.fails...), p2.fails...) {
+			if fl {
+				o.Probes["do.fault_injected"]++
+			}
+		}
+		return o
+	}})
 	reg("do-3", 3, func(r *doRun, s *Sim) {
 		a, b, c, err := do3.Do(
 			func() (int, error) { e := r.body(0); return 11, e },
